@@ -185,3 +185,12 @@ def fx_tasks(fx):
     return (_fires(c, "Q::bad_balance") and not _fires(c, "Q::ok_balance")
             and _fires(c2, "Q::bad_refill") and not _fires(c2, "Q::ok_refill")
             and _fires(c3, "tasks::bad_map") and not _fires(c3, "tasks::ok_map"))
+
+
+def fx_trunc(fx):
+    from rules import trunc
+    c = _ctx()
+    n = 0
+    for nm in ("bad_varint", "ok_varint"):
+        n += trunc.check(c, Fn(fx.raw("trunc::" + nm)))
+    return n == 2 and _fires(c, "trunc::bad_varint") and not _fires(c, "trunc::ok_varint")
